@@ -384,7 +384,7 @@ def resolveIn (b : Bytes) (entries : List Entry) (id : ObjId) : Option Int :=
 /-- R6: walk the object area from `pos` to `stop`; exactly one entry starts at each position -/
 def walk (b : Bytes) (resolve : ObjId → Option Int) :
     Nat → List Entry → Nat → Nat → List (ObjId × Obj) → Res (List (ObjId × Obj))
-  | 0, _, _, _, _ => .error "walk: more steps than entries"
+  | 0, _, _, _, _ => .error "walk: more steps than bytes"
   | fuel + 1, ents, pos, stop, acc =>
     if pos = stop then
       (if ents.isEmpty then .ok acc.reverse else .error "an entry does not point into the object area of its revision")
@@ -437,7 +437,7 @@ def revisions (b : Bytes) : Nat → Nat → Res (List RevData × Bytes × Nat)
         | .error e => .error e
         | .ok (olderRevs, v, objStart) =>
           let ents := rev.entries.filter fun e => some e.1 != rev.selfId
-          match walk b (resolveIn b rev.entries) (ents.length + 1) ents objStart x [] with
+          match walk b (resolveIn b rev.entries) (b.length + 1) ents objStart x [] with
           | .error e => .error e
           | .ok objs => .ok ({ rev := rev, objs := objs } :: olderRevs, v, endPos)
 
